@@ -79,6 +79,9 @@ CharShapes ==
     [wide : BOOLEAN, id : CharIds, vkind : VKinds, size : Sizes, cccd : Cccds, named : BOOLEAN,
      fix : {"none", "handle", "handles"}, gap : Gaps, enc : EncOpts]
 
+\* the shapes AddChar chooses from; the sampler replaces it by one random shape (ShapeChoices <- RandomShapes)
+ShapeChoices == CharShapes
+
 Char(sh, cur) ==
     LET dh == cur + sh.gap
         vh == dh + 1 + sh.gap
@@ -96,7 +99,7 @@ Char(sh, cur) ==
 AddChar ==
     /\ k <= Len(d.services) /\ opened
     /\ Len(d.services[k].chars) < MaxChars /\ TotalChars < MaxTotalChars
-    /\ \E sh \in CharShapes :
+    /\ \E sh \in ShapeChoices :
          /\ sh.fix = "none" => sh.gap = CHOOSE g \in Gaps : \A h \in Gaps : g <= h     \* gap is meaningless without a fixed handle
          /\ sh.vkind = "fixed" => sh.cccd = "none"
          /\ d' = [d EXCEPT !.services[k].chars = Append(@, Char(sh, NextFree(k)))]
